@@ -208,6 +208,29 @@ func (prop) RunImpl(c corr.Case) ([]string, []corr.Fail) {
 			case fc.IsDifferentChain():
 				class = "betterChain"
 			}
+			// independent LIP-0014 reference on the op's own fields (slots are given in the op; the wall clock is in
+			// slot nowSlot by construction of genesis)
+			{
+				lslot, cslot := int(pu(w[6])), int(pu(w[12]))
+				dup := w[1] == w[7] && w[2] == w[8] && w[4] == w[10]
+				lastInSlot := w[13] == "nil" || int(pu(w[13])) == lslot
+				want := "discard"
+				switch {
+				case w[3] == w[9]:
+					want = "identical"
+				case pu(w[1])+1 == pu(w[7]) && w[3] == w[10]:
+					want = "extendsTip"
+				case dup && w[5] == w[11]:
+					want = "doubleForging"
+				case dup && lslot < cslot && !lastInSlot && cslot == nowSlot:
+					want = "tieBreak"
+				case lexLess(pu(w[2]), pu(w[1]), pu(w[8]), pu(w[7])):
+					want = "betterChain"
+				}
+				if class != want {
+					fails = append(fails, corr.Fail{Sig: "fork-choice-class-differs-from-LIP14", Detail: fmt.Sprintf("%s: got %s want %s", op, class, want), Op: i})
+				}
+			}
 			if class == "betterChain" && !lexLess(last.MaxHeightPrevoted, last.Height, cur.MaxHeightPrevoted, cur.Height) {
 				fails = append(fails, corr.Fail{Sig: "better-chain-not-lex-larger", Detail: op, Op: i})
 			}
